@@ -296,23 +296,16 @@ theorem run_inv (h0 start : Nat) (s : Spec) (rest : List Spec) (evs : List Ev) :
 
 /-! ## the property -/
 
-/-- **calls_follow_nominal_schedule**: for every block/message/initiation timing, at every
-    moment of the execution (`exec` = after any event list, `run` = after the final drain) the
-    block-counter calls made so far are a prefix of the nominal schedule
-    `Wait start, Wait (e₀+d₀), Arm (e₀+d₀+a₀), Wait (e₁+d₁), …` with `e₀ = start`,
-    `e_{k+1} = e_k + d_k + a_k`: state `k` is entered at `e_k = start + Σ_{j<k}(d_j+a_j)`, its
-    `Initiate` is gated by `e_k + d_k`, its end by `e_k + d_k + a_k` — never by the actual,
-    possibly late, block heights. -/
-theorem calls_follow_nominal_schedule (h0 start : Nat) (s : Spec) (rest : List Spec) (evs : List Ev) :
-    ∃ l, Call.wait start :: sched start (s :: rest) = (exec h0 start s rest evs).calls ++ l := by
-  obtain ⟨pre, hall, hk, hinv⟩ := exec_inv h0 start s rest evs
+theorem inv_calls_prefix {start all} (c : Cfg) (h : Inv start all c) :
+    ∃ l, Call.wait start :: sched start all = c.calls ++ l := by
+  obtain ⟨pre, hall, hk, hinv⟩ := h
   split at hinv
   · exact hinv.1
   · obtain ⟨_, hc⟩ := hinv
-    generalize (exec h0 start s rest evs).phase = ph at hc
-    generalize (exec h0 start s rest evs).calls = calls at hc
-    generalize hcur : (exec h0 start s rest evs).cur = cur at hc hall
-    generalize hrest : (exec h0 start s rest evs).rest = rst at hall
+    generalize c.phase = ph at hc
+    generalize c.calls = calls at hc
+    generalize hcur : c.cur = cur at hc hall
+    generalize hrest : c.rest = rst at hall
     rw [hall]
     cases ph with
     | waitStart x =>
@@ -347,6 +340,17 @@ theorem calls_follow_nominal_schedule (h0 start : Nat) (s : Spec) (rest : List S
       · exact absurd hc (by simp)
     | finished => simp [callsAt] at hc
 
+/-- **calls_follow_nominal_schedule**: for every block/message/initiation timing, at every
+    moment of the execution (after any event list) the block-counter calls made so far are a
+    prefix of the nominal schedule
+    `Wait start, Wait (e₀+d₀), Arm (e₀+d₀+a₀), Wait (e₁+d₁), …` with `e₀ = start`,
+    `e_{k+1} = e_k + d_k + a_k`: state `k` is entered at `e_k = start + Σ_{j<k}(d_j+a_j)`, its
+    `Initiate` is gated by `e_k + d_k`, its end by `e_k + d_k + a_k` — never by the actual,
+    possibly late, block heights. -/
+theorem calls_follow_nominal_schedule (h0 start : Nat) (s : Spec) (rest : List Spec) (evs : List Ev) :
+    ∃ l, Call.wait start :: sched start (s :: rest) = (exec h0 start s rest evs).calls ++ l :=
+  inv_calls_prefix _ (exec_inv h0 start s rest evs)
+
 /-- **end_block_eq**: whenever `Execute` returns normally it returns the last state of the chain
     and exactly `start + Σ (delay + active)`, after having made every nominal call — for every
     timing of blocks, messages and `Initiate` durations. -/
@@ -379,6 +383,35 @@ theorem gjkr_end_block (h0 start : Nat) (evs : List Ev) (s : Spec) (rest : List 
     e = start + Gen.C14.gjkrProtocolBlocks := by
   rw [← gjkr_total_eq_ProtocolBlocks, hc]
   exact (end_block_eq h0 start s rest evs k e h).1
+
+theorem isPrefix_of_append [DecidableEq α] (a l : List α) : isPrefix a (a ++ l) = true := by
+  induction a with
+  | nil => rfl
+  | cons x r ih => simp [isPrefix, ih]
+
+theorem sched_length (e : Nat) (l : List Spec) : (sched e l).length = 2 * l.length := by
+  induction l generalizing e with
+  | nil => rfl
+  | cons s r ih => simp [sched, ih]; omega
+
+/-- **holdsSched_model_partial** (monitor tie, block-window part): the schedule part of the
+    monitor accepts every run of the model, for all inputs.  Gap: the remaining conjuncts of
+    `holds` (entry/initiate heights of each record, context flags, message conservation) are
+    not proved to accept the model; they are compared with the model on every case instead. -/
+theorem holdsSched_model_partial (h0 start : Nat) (s : Spec) (rest : List Spec) (evs : List Ev)
+    (hfin : (run h0 start s rest evs).res ≠ .running) :
+    holdsSched start (s :: rest) (run h0 start s rest evs).calls (run h0 start s rest evs).res = true := by
+  have hinv := run_inv h0 start s rest evs
+  obtain ⟨l, hl⟩ := inv_calls_prefix _ hinv
+  unfold holdsSched
+  rw [hl, isPrefix_of_append]
+  cases hres : (run h0 start s rest evs).res with
+  | running => exact absurd hres hfin
+  | final k e =>
+    obtain ⟨a, b, c⟩ := end_block_eq h0 start s rest evs k e hres
+    simp [a, b, c, sched_length]; omega
+  | errInitiate => simp
+  | errNext => simp
 
 /-- non-vacuity: a run with a late block jump and a silent state ends normally at `start + total`
     (by `simp` unfolding; no kernel evaluation of the run). -/
